@@ -93,6 +93,58 @@ fn sampler_case(ctx: &mut Ctx, idx: u64, rng: &mut Rng) {
     ctx.sample(2, || json!({"sampler_probs": probs, "cumulative": cum}));
 }
 
+/// (3) the cached chance sampler itself (alias table): many fresh draws, one per pass, from a
+/// seeded generator (hook chance_sampler_counts); the counts must stay within the Hoeffding
+/// radius of draws x probability. 200 000 draws resolve a bias of 1 % of an outcome's mass that
+/// a 1000-pass solve cannot.
+fn chance_sampler_case(ctx: &mut Ctx, idx: u64, rng: &mut Rng, quick: bool) {
+    let n = rng.range(2, 8);
+    let weights: Vec<f64> = (0..n)
+        .map(|_| match rng.below(4) {
+            0 => 1.0,
+            1 => 0.05 + rng.unit(),
+            2 => 10f64.powf(-3.0 * rng.unit()),
+            _ => rng.range(1, 6) as f64,
+        })
+        .collect();
+    let tot: f64 = weights.iter().sum();
+    let probs: Vec<f64> = weights.iter().map(|w| w / tot).collect();
+    let draws: u64 = if quick { 200_000 } else { 2_000_000 };
+    let seed = rng.next();
+    verif::start(Config { flags: 0, sampling: Sampling::Seeded(seed), jitter_seed: 0 });
+    let got = catch(|| verif::chance_sampler_counts(&probs, draws));
+    let _ = verif::finish();
+    let counts = match got {
+        Ok(c) => c,
+        Err(msg) => {
+            ctx.violation(idx, "C10:chance-sampler:panic", &format!("chance sampler panicked for probabilities {:?}: {}", probs, msg), json!({"probs": probs}));
+            return;
+        }
+    };
+    let r = radius(draws as f64);
+    if counts.len() != n || counts.iter().sum::<u64>() != draws {
+        ctx.violation(idx, "C10:chance-sampler:counts-malformed", &format!("{} draws over {} outcomes gave counts {:?}", draws, n, counts), json!({"probs": probs}));
+        return;
+    }
+    for (j, c) in counts.iter().enumerate() {
+        let dev = (*c as f64 - draws as f64 * probs[j]).abs();
+        ctx.max("max_chance_sampler_deviation_over_radius", dev / r);
+        if dev > r {
+            ctx.violation(
+                idx,
+                "C10:chance-sampler:frequency",
+                &format!("outcome {} of probabilities {:?} was drawn {} times in {} fresh draws (expected {:.1}, deviation {:.1} > Hoeffding radius {:.1})", j, probs, c, draws, draws as f64 * probs[j], dev, r),
+                json!({"probs": probs, "counts": counts, "seed": seed.to_string()}),
+            );
+            return;
+        }
+    }
+    ctx.count("chance_sampler_frequency_cases", 1);
+    ctx.count("chance_sampler_draws", draws);
+    ctx.ok(mix(seed ^ probs.iter().fold(5u64, |h, p| mix(h ^ p.to_bits()))), true);
+    ctx.sample(1, || json!({"chance_sampler_probs": probs, "counts": counts, "draws": draws}));
+}
+
 fn radius(n: f64) -> f64 {
     (n * (2.0f64 / 1e-12).ln() / 2.0).sqrt()
 }
@@ -240,14 +292,16 @@ pub fn run(ctx: &mut Ctx) {
     let quick = ctx.quick();
     let n = if quick { 30_000 } else { 1_500_000 };
     ctx.run_cases(n, |ctx, idx, rng| {
-        if idx % 8 == 0 {
+        if idx % 64 == 5 {
+            chance_sampler_case(ctx, idx, rng, quick);
+        } else if idx % 8 == 0 {
             solve_case(ctx, idx, rng, quick);
         } else {
             sampler_case(ctx, idx, rng);
         }
     });
     ctx.finish(crate::report::extra(
-        "cases = (1) sampler queries: probability vectors of length 1-8 with dyadic entries (exact cumulative sums, zeros included) x uniform variates k*2^-53 placed at every cumulative boundary +-{1,2,2^13,2^30,2^43} units and at random; the production categorical sampler (via hook multinomial_index with an RNG that yields exactly that variate) must return j whenever the variate lies strictly inside the j-th cumulative interval; with dyadic probabilities both sides compute exactly, so only a variate exactly on a boundary is don't-care. (2) logged solves of 300-4000 iterations on Kuhn, Leduc-like, rare-chance and G1 games with shared chance infosets, all methods, threads {1,3}, plus (a quarter of the runs) G1 games of 80-300 nodes with up to dozens of chance infosets under threads {2,3,4,8} for 30-300 iterations, production or seeded randomness: per pass the O3 step checker enforces at most one draw per (site, infoset, pass), draws only where the method allows (none in Full, no player draws in Sampled, only the non-updating player in External), presented weights = declared normalised chance weights resp. the player's current strategy, draws only for infosets the sampled traversal reaches, and visits (H4) exactly on the tree the draws select; over the run the outcome counts per chance infoset stay within the Hoeffding radius sqrt(n ln(2e12)/2) of n*p and the player-site martingales within the Azuma radius. distinct = hash(probabilities, variate) resp. hash(tree, configuration, seed); non-trivial = more than one outcome resp. at least one sampling site.",
+        "cases = (0) the cached chance sampler (alias table) drawn 2e5 (thorough 2e6) times afresh from a seeded generator (hook chance_sampler_counts) for random weight vectors of length 2-8: every outcome count within the Hoeffding radius of draws x probability (resolves biases of ~1 % of the total mass; thorough 0.3 %). (1) sampler queries: probability vectors of length 1-8 with dyadic entries (exact cumulative sums, zeros included) x uniform variates k*2^-53 placed at every cumulative boundary +-{1,2,2^13,2^30,2^43} units and at random; the production categorical sampler (via hook multinomial_index with an RNG that yields exactly that variate) must return j whenever the variate lies strictly inside the j-th cumulative interval; with dyadic probabilities both sides compute exactly, so only a variate exactly on a boundary is don't-care. (2) logged solves of 300-4000 iterations on Kuhn, Leduc-like, rare-chance and G1 games with shared chance infosets, all methods, threads {1,3}, plus (a quarter of the runs) G1 games of 80-300 nodes with up to dozens of chance infosets under threads {2,3,4,8} for 30-300 iterations, production or seeded randomness: per pass the O3 step checker enforces at most one draw per (site, infoset, pass), draws only where the method allows (none in Full, no player draws in Sampled, only the non-updating player in External), presented weights = declared normalised chance weights resp. the player's current strategy, draws only for infosets the sampled traversal reaches, and visits (H4) exactly on the tree the draws select; over the run the outcome counts per chance infoset stay within the Hoeffding radius sqrt(n ln(2e12)/2) of n*p and the player-site martingales within the Azuma radius. distinct = hash(probabilities, variate) resp. hash(tree, configuration, seed); non-trivial = more than one outcome resp. at least one sampling site.",
         &["frequency tests have false-alarm probability 1e-12 each", "seeded mode feeds the production samplers from a SplitMix64 stream keyed per (seed, site, infoset, pass)"],
     ));
 }
